@@ -48,6 +48,8 @@ def run(ctx):
         os.environ.pop("GOEXPERIMENT", None)
     # MC: all interleavings of the step-level model
     ctx.model_check("net/MCFeed", "net/MCFeedReduced", timeout=3600, workers=4, name="MCFeedReduced", deadlock=False)
+    # two owners calling Unsubscribe on the same subscription (sync.Once) racing a blocked Send
+    ctx.model_check("net/MCFeed", "net/MCFeedTwoUnsub", timeout=3600, workers=4, name="MCFeedTwoUnsub", deadlock=False)
     if ctx.thorough:
         ctx.model_check("net/MCFeed", "net/MCFeed", timeout=7200, workers=4, name="MCFeed(unreduced)", deadlock=False)
         ctx.model_check("net/MCFeed", "net/MCFeedThorough", timeout=7200, workers=6, name="MCFeedThorough", deadlock=False)
@@ -87,5 +89,6 @@ def run(ctx):
             if not ok:
                 ctx.reject_trace("net/FeedTrace", tp, consumed, r, cfg=cfg, desc="history of real event.Feed has no explanation by Feed.tla (%s) after event %d" % (cfg, consumed))
     return ctx.finish(rule="MC: all interleavings of call/internal/return steps, 2 senders x 2-3 channels (caps 0/1), 1 send each, unsubscribe racing; V: stress histories of 3 senders x 4 channels (caps 0,1,2,0)",
-                      assumptions=["one subscription per channel at a time", "values are unique per send (sender*1000+k)",
+                      assumptions=["one subscription per channel at a time", "at most two concurrent Unsubscribe callers per subscription",
+                                   "the forced double-Unsubscribe schedule holds the feed's unexported inbox mutex via reflect/unsafe", "values are unique per send (sender*1000+k)",
                                    "Go channel semantics as modelled by Room/Deliver/RecvEnd"])
